@@ -263,6 +263,21 @@ class Executor:
             if isinstance(ty, TTuple) and len(ty.items) == len(v.items):
                 return VTuple([self.freeze(st, i, t) for i, t in zip(v.items, ty.items)])
             return VTuple([self.freeze(st, i) for i in v.items])
+        if isinstance(v, VRec) and isinstance(ty, TRec) and v.ty != ty:
+            # width coercion between dict shapes: a python dict has no nominal type, so a record whose keys are all
+            # keys of `ty` (same field types; the remaining keys of `ty` optional) *is* a `ty` dict
+            if all(k in ty.index and ty.index[k][0] == fty for k, fty, _ in v.ty.fields) and all(
+                    o or k in v.ty.index for k, _, o in ty.fields):
+                vals, has = {}, {}
+                for k, fty, o in ty.fields:
+                    if k in v.ty.index:
+                        vals[k] = v.ty.get(v.t, k)
+                        has[k] = v.ty.has(v.t, k) if v.ty.index[k][1] else True
+                        if o is False and v.ty.index[k][1]:
+                            raise EngineUnsupported(f"optional key {k} of {v.ty.name} where {ty.name} requires it")
+                    else:
+                        has[k] = False
+                return VRec(ty, ty.mk(vals, has))
         if isinstance(ty, TOpt) and not isinstance(v, VOpt):
             if v is VNone:
                 return VOpt(ty, ty.none())
@@ -881,6 +896,23 @@ class Executor:
             raise EngineUnsupported("yield from outside generator context")
         self.list_extend(st, out, v)
         return [(st, Outcome(Outcome.NORMAL))]
+
+    def ex_With(self, st, s):
+        # only `with open(...) as f:` / `with io.StringIO(..) as f:` -- the stream object is its own context manager
+        # and closing it has no effect the model observes
+        if len(s.items) != 1:
+            raise EngineUnsupported(f"with statement with several items at line {s.lineno}")
+        it = s.items[0]
+
+        def k(s2, v):
+            if not (isinstance(v, VRef) and isinstance(s2.cell(v), ObjCell) and s2.cell(v).cls == "TextIO"):
+                raise EngineUnsupported(f"with statement over a non-stream object at line {s.lineno}")
+            if it.optional_vars is not None:
+                if not isinstance(it.optional_vars, ast.Name):
+                    raise EngineUnsupported("with ... as <pattern>")
+                s2.env[it.optional_vars.id] = v
+            return self.exec_block(s2, s.body)
+        return self._lift(self.eval(st, it.context_expr), k)
 
     def ex_Return(self, st, s):
         if s.value is None:
